@@ -375,3 +375,15 @@ META.update({
     "C17": {"run": semantic.run_c17, "rule": "generated programs x the four flag configurations (flags by field; 40%: tracing via the TRACE command); per turn: outcome, state, outputs without Trace/Warning records and full snapshot without flags must be identical; trace record sequence vs the line path recovered from the untraced run",
             "trusted_base": TB_COMMON, "assumptions": ASSUME_COMMON},
 })
+
+
+from . import files  # noqa: E402
+
+META.update({
+    "C05": {"run": files.run_c05, "rule": "15 fixed files (duplicate numbers whose later definition is empty / untokenizable, multi-byte illegal characters, CRLF, line 2^64-1, 5000-deep nesting) + generated files mixing numbered / unnumbered / blank / duplicated / emptied / untokenizable lines (28 odd line shapes) with generated program lines; per file: no panic, one token list per file line, every message mapped through map_to_source to a file line < number of lines and a byte range inside that line on character boundaries, token ranges ordered; the model's analysis (messages, mapped ranges, token classes and ranges) must equal the implementation's; distinct = distinct file text; non-trivial = more than one line",
+            "trusted_base": TB_COMMON, "assumptions": ASSUME_COMMON + ["symbol warnings are compared as a sorted multiset (HashMap iteration order)"]},
+    "C06": {"run": files.run_c06, "rule": "generated programs, well-typed by construction or with one seeded kind / syntax / jump fault; analyzer verdict vs the error kinds over forced executions (conditions driven both ways by INPUT replies), straight-line lines executed fresh; model vs analyzer messages and run outcomes",
+            "trusted_base": TB_COMMON, "assumptions": ASSUME_COMMON},
+    "C15": {"run": files.run_c15, "rule": "well-formed generated program files x the 8 CLI option combinations x file mode / piped mode through the real abasic binary (stdout, stderr, exit status; banner and prompts canonicalised); SourceFileAnalyzer::analyze(..).into_interpreter() vs line-by-line entry in process (LIST, RUN, snapshots)",
+            "trusted_base": TB_COMMON, "assumptions": ASSUME_COMMON + ["process I/O, rustyline and colour codes are exercised, not modelled"]},
+})
